@@ -98,6 +98,28 @@ def _enclosing(path: Path, line: int) -> str | None:
     return best
 
 
+_PROBLEM_SCOPE = [   # (keyword in the problem text, properties whose models use that extraction)
+    ("qcow2", {"C01", "C07", "C08", "C09", "C11", "C12", "C13", "C14"}),
+    ("vmdk", {"C02", "C07", "C08", "C09", "C10", "C11", "C12", "C13", "C14"}),
+    ("vhdx", {"C03", "C07", "C08", "C09", "C11", "C12", "C13", "C14"}),
+    ("vhd", {"C04", "C08", "C09", "C11", "C13", "C14"}),
+    ("vdi", {"C05", "C07", "C08", "C09", "C11", "C12", "C13", "C14"}),
+    ("hdd", {"C06", "C07", "C08", "C09", "C10", "C11", "C12", "C13", "C14"}),
+    ("vmtar", {"C20", "C11", "C09"}),
+    ("hyperv", {"C17", "C11", "C12", "C09"}),
+    ("envelope", {"C16", "C11", "C12", "C09"}),
+    ("vmx", {"C15", "C18", "C11", "C12", "C09"}),
+    ("configs", {"C18", "C19", "C09"}), ("ovf", {"C18", "C19"}), ("vbox", {"C18", "C19"}), ("pvs", {"C18", "C19"}),
+    ("c14", {"C14"}), ("defusedxml", {"C19"}),
+]
+
+
+def _problem_concerns(problem: str, prop: str) -> bool:
+    low = problem.lower()
+    hit = [props for kw, props in _PROBLEM_SCOPE if kw in low]
+    return (not hit) or any(prop in props for props in hit)
+
+
 def prepare(prop: str, thorough: bool = False) -> ProofStatus:
     """extract -> lake build (proofs of this property + driver) -> axiom audit."""
     st = ProofStatus()
@@ -110,6 +132,9 @@ def prepare(prop: str, thorough: bool = False) -> ProofStatus:
             st.extract = json.loads(r.stdout.strip().splitlines()[-1])
         except Exception:
             st.extract = {"problems": [f"extract.py failed: {r.stderr[-2000:]}"]}
+        # an extraction problem breaks the tie only of the properties that use that part of the code
+        st.extract["problems_all"] = list(st.extract.get("problems") or [])
+        st.extract["problems"] = [p for p in st.extract["problems_all"] if _problem_concerns(p, prop)]
         target = f"HvProps.{prop}"
         st.checker_cmd = f"cd lean && lake build {target} hvdrv && lake env lean <#print axioms of every theorem in HvProps/{prop}.lean>"
         r = subprocess.run(["lake", "build", target], capture_output=True, text=True, cwd=LEAN)
